@@ -166,10 +166,12 @@ def owner_table_premise(ctx):
             # (records-*: what clientDisconnected walks to take a dead
             # connection out of the queues - a name not recorded on the
             # caller leaves its connection in the queue after it is gone)
-            if rule in ('C13.D2', 'C13.D4') and (
+            if (rule in ('C13.D2', 'C13.D4') and (
                     slot.startswith('row:') or slot.startswith('insert-') or
                     slot.startswith('old-entry-') or
-                    slot.startswith('records-')):
+                    slot.startswith('records-'))) or (
+                    rule == 'C13.D3' and slot.startswith(
+                        'released-forgets-the-callers-record')):
                 ctx.ob('C14.D3', where, 'owner-table:' + slot, ok,
                        '[the routing table must hold the owner the clients '
                        'were told about] ' + msg, detail, nontrivial, loc)
@@ -181,6 +183,7 @@ def owner_table_premise(ctx):
         def advisory(self, *a):
             pass
     c13.request_table(_Sub())
+    c13.release_rules(_Sub())
 
 
 def unique_names(ctx):
